@@ -52,6 +52,86 @@ def assoc_source(n, ns):
             4: _ipath("VA", ns, k=1)}[min(n, 4)]
 
 
+# ---- filter arguments of the association opens (spec: event field flt) ----
+# flt 0: none; 1: filter arguments that keep the whole unfiltered result of
+# the source; 2: filter arguments that drop part (or all) of it.  The table
+# (family, flt, result size) -> [(source, filter kwargs)] is computed once
+# from the schema-level alphabets below with the TRADITIONAL operation on a
+# fresh repository; it only serves to pick a call whose result has the size
+# the abstract call asks for - the expected result of every session is the
+# traditional operation called with the same arguments at that moment.
+ROLES = [None, "left", "right", "a", "b", "x", "LEFT", "B"]
+REF_RESULT_CLASSES = [None, "VAssoc", "VAssocSub", "VTern", "vassoc"]
+ASSOC_CLASSES = [None, "VAssoc", "VAssocSub", "VTern"]
+ASSOC_RESULT_CLASSES = [None, "VX", "VA", "VB", "vx"]
+_FILTERS = {}
+
+
+def _filter_combos(fam):
+    if fam == "ref":
+        for r in ROLES:
+            for rc in REF_RESULT_CLASSES:
+                yield dict(Role=r, ResultClass=rc)
+        return
+    dims = [("AssocClass", ASSOC_CLASSES), ("ResultClass", ASSOC_RESULT_CLASSES),
+            ("Role", ROLES[:6]), ("ResultRole", ROLES[:6])]
+    yield {}
+    for i, (n1, v1) in enumerate(dims):
+        for x in v1[1:]:
+            yield {n1: x}
+            for n2, v2 in dims[i + 1:]:
+                for y in v2[1:]:
+                    yield {n1: x, n2: y}
+    # all four arguments at once: consistent and inconsistent end pairs
+    for ac, r, rr in (("VAssoc", "left", "right"), ("VAssoc", "right", "left"),
+                      ("VTern", "a", "b"), ("VTern", "b", "a"),
+                      ("VTern", "a", "x"), ("VTern", "x", "b"),
+                      ("VAssocSub", "left", "right"), ("VTern", "a", "a")):
+        for rc in ("VX", "VA"):
+            yield dict(AssocClass=ac, Role=r, ResultRole=rr, ResultClass=rc)
+
+
+def filter_table():
+    """(fam, flt, n) -> list of (source path, filter kwargs)."""
+    if _FILTERS:
+        return _FILTERS
+    c = mockrepo.fresh()
+    srcs = [_ipath("VA", NS1, k=1), _ipath("VA", NS1, k=2),
+            _ipath("VB", NS1, k=3), _ipath("VB", NS1, k=4)] + \
+        [_ipath("VX", NS1, name="x%d" % i, n=i) for i in (1, 2, 3, 4)]
+    for fam, op in (("ref", "ReferenceNames"), ("assoc", "AssociatorNames")):
+        for src in srcs:
+            try:
+                unf = len(getattr(c, op)(src))
+            except pywbem.Error:
+                continue
+            for combo in _filter_combos(fam):
+                kw = {a: b for a, b in combo.items() if b is not None}
+                if not kw:
+                    continue
+                try:
+                    n = len(getattr(c, op)(src, **kw))
+                except pywbem.Error:
+                    continue
+                flt = 1 if n == unf else 2
+                _FILTERS.setdefault((fam, flt, n), []).append((src, kw))
+    if not any(k[1] == 2 and k[2] > 0 for k in _FILTERS):
+        raise vlib.MachineryError("no filter that keeps a proper part of a "
+                                  "result: repository schema changed?")
+    return _FILTERS
+
+
+def filtered_target(fam, flt, n, variant):
+    """A (source, filter kwargs) of the filter class whose traditional result
+    has n objects (or the nearest smaller size the repository offers)."""
+    tab = filter_table()
+    for size in range(min(n, 4), -1, -1):
+        cands = tab.get((fam, flt, size))
+        if cands:
+            return cands[variant % len(cands)]
+    return None
+
+
 def canon_path(p):
     q = p.copy()
     q.host = None
@@ -172,7 +252,7 @@ class Driver:
             return self.ctx_ids.get((v, self.ctx_tuples[aid][0]), aid)
         return aid
 
-    def _target(self, k, nsid, n, tradok):
+    def _target(self, k, nsid, n, tradok, flt=0):
         ns = NSMAP[nsid]
         if k in (1, 2):
             cls = ENUM_CLASSES.get(n, "VN7")
@@ -183,21 +263,28 @@ class Driver:
             if self.variant % 2:
                 cls = cls.upper()
             return dict(ClassName=cls, namespace=ns)
-        if k in (3, 4):
-            src = ref_source(n, ns)
+        if k in (3, 4, 5, 6):
+            src = ref_source(n, ns) if k in (3, 4) else assoc_source(n, ns)
+            kw = {}
+            if flt:
+                # the same filter arguments go to the traditional operation
+                # that defines the expected result `all`
+                t = filtered_target("ref" if k in (3, 4) else "assoc", flt, n,
+                                    self.variant + len(self.calls))
+                if t is not None:
+                    src, kw = t
             if not tradok:
                 src = _ipath("VNoSuchClass", ns, k=1)
-            return dict(InstanceName=src)
-        if k in (5, 6):
-            src = assoc_source(n, ns)
-            if not tradok:
-                src = _ipath("VNoSuchClass", ns, k=1)
-            return dict(InstanceName=src)
+            return dict(InstanceName=src, **kw)
         return dict(FilterQueryLanguage="WQL", FilterQuery="SELECT * FROM VN3",
                     namespace=ns)
 
-    def do_open(self, k, nsid, n, tradok, m, v=1, ot=-1, coe=-1):
-        kw = self._target(k, nsid, n, tradok)
+    def do_open(self, k, nsid, n, tradok, m, v=1, ot=-1, coe=-1, flt=0):
+        if k not in (3, 4, 5, 6):
+            flt = 0
+        kw = self._target(k, nsid, n, tradok, flt)
+        if flt and len(kw) == 1:
+            flt = 0     # the repository offers no such filter: unfiltered call
         conn = self._server(v)[1]
         # the reference: the corresponding traditional operation
         try:
@@ -205,7 +292,9 @@ class Driver:
                 trad = conn.ExecQuery("WQL", "SELECT * FROM VN3",
                                       namespace=kw["namespace"])
             elif k in (3, 4, 5, 6):
-                trad = getattr(conn, TRAD_NAMES[k])(kw["InstanceName"])
+                trad = getattr(conn, TRAD_NAMES[k])(
+                    kw["InstanceName"],
+                    **{a: b for a, b in kw.items() if a != "InstanceName"})
             else:
                 trad = getattr(conn, TRAD_NAMES[k])(**kw)
             t_ok = True
@@ -232,7 +321,7 @@ class Driver:
             okw["ContinueOnError"] = bool(coe)
         ev = dict(op="Open", srv=v, k=k, ns=nsid,
                   all=list(range(1, len(keys) + 1)),
-                  tradok=t_ok, m=m, id=0, ot=ot, coe=coe)
+                  tradok=t_ok, m=m, id=0, ot=ot, coe=coe, flt=flt)
         try:
             r = getattr(conn, OPEN_NAMES[k])(**okw)
             objs = r.paths if hasattr(r, "paths") else r.instances
@@ -264,7 +353,7 @@ class Driver:
         self.calls.append({"op": PULL_NAMES[pk], "ctx": aid, "max": m,
                            "srv": v})
         ev = dict(op="Pull", srv=v, k=pk, ns=0, all=[], tradok=True, m=m,
-                  id=aid, ot=-1, coe=-1)
+                  id=aid, ot=-1, coe=-1, flt=0)
         try:
             r = getattr(self._server(v)[1], PULL_NAMES[pk])(
                 ctx, MaxObjectCount=m)
@@ -286,7 +375,7 @@ class Driver:
         aid = self._eff_id(v, aid)
         self.calls.append({"op": "CloseEnumeration", "ctx": aid, "srv": v})
         ev = dict(op="Close", srv=v, k=0, ns=0, all=[], tradok=True, m=0,
-                  id=aid, ot=-1, coe=-1, objs=[], eos=False, ctx=0)
+                  id=aid, ot=-1, coe=-1, flt=0, objs=[], eos=False, ctx=0)
         try:
             self._server(v)[1].CloseEnumeration(ctx)
             ev.update(ok=True, code=0)
@@ -307,7 +396,7 @@ class Driver:
         mockrepo.empty_and_remove_namespace(srv, NS2)
         self.calls.append({"op": "remove_namespace", "ns": NS2, "srv": v})
         ev = dict(op="RemoveNs", srv=v, k=0, ns=2, all=[], tradok=True, m=0,
-                  id=0, ot=-1, coe=-1, ok=True, code=0, objs=[], eos=False,
+                  id=0, ot=-1, coe=-1, flt=0, ok=True, code=0, objs=[], eos=False,
                   ctx=0, nctx=self.nctx(v))
         self.events.append(ev)
         return ev
@@ -317,7 +406,7 @@ class Driver:
         self.calls.append({"op": "disable_pull_operations", "value": not on,
                            "srv": v})
         ev = dict(op="SetPull", srv=v, k=0, ns=0, all=[], tradok=True, m=0,
-                  id=0, ot=-1, coe=-1, ok=bool(on), code=0, objs=[], eos=False,
+                  id=0, ot=-1, coe=-1, flt=0, ok=bool(on), code=0, objs=[], eos=False,
                   ctx=0, nctx=self.nctx(v))
         self.events.append(ev)
         return ev
@@ -327,7 +416,8 @@ class Driver:
         v = c.get("srv", 1)
         if op == "Open":
             return self.do_open(c["k"], c["ns"], len(c["all"]), c["tradok"],
-                                c["m"], v, c.get("ot", -1), c.get("coe", -1))
+                                c["m"], v, c.get("ot", -1), c.get("coe", -1),
+                                c.get("flt", 0))
         if op == "Pull":
             return self.do_pull(c["k"], c["id"], c["m"], v)
         if op == "Close":
@@ -374,8 +464,10 @@ def random_trace(rng, variant, wire=False):
             m = rng.choice([-1, 0, 0, 1, 1, 2, 3, 5, 100])
             ot = rng.choice([-1, -1, 0, 0, 1, 40])
             coe = rng.choice([-1, -1, 0, 1])
+            # filter class of the association opens: a third each
+            flt = rng.choice([0, 1, 2]) if k in (3, 4, 5, 6) else 0
             d.do_open(k, nsid, n, rng.random() > 0.1, m, rng.choice(srvs),
-                      ot, coe)
+                      ot, coe, flt)
         elif x < 0.80:
             aid = rng.choice(open_ids + [rng.randint(1, 5)])
             y = rng.random()
@@ -589,7 +681,7 @@ def replay(rep):
         v = e.get("srv", 1)
         if e["op"] == "Open":
             d.do_open(e["k"], e["ns"], len(e["all"]), e["tradok"], e["m"], v,
-                      e.get("ot", -1), e.get("coe", -1))
+                      e.get("ot", -1), e.get("coe", -1), e.get("flt", 0))
         elif e["op"] == "Pull":
             d.do_pull(e["k"], e["id"], e["m"], v)
         elif e["op"] == "Close":
